@@ -20,9 +20,15 @@ func c07Run(t gen.TB, w *gen.World, desc string) {
 	w.Resp[gen.QeIdentityURL] = w.QeIDResponse()
 	m := gen.QeModel(w)
 	o := w.Options(gen.LvlColl, w.NewGetter(), nil)
+	pk := prehistoryKind(w.Raw)
+	if ph := optionsPrehistory(w.Raw, o, pk, w.NewGetter()); ph != "" {
+		desc += " [" + ph + "]"
+		gen.Class("options-value-used-before")
+	}
 	gen.Eval()
 	v := gen.Call(func() error { return verify.RawTdxQuote(w.Raw, o) })
 	rp := w.CaseFile(gen.LvlColl, nil, nil, nil, map[bool]string{true: "accept", false: "reject"}[m.Accept])
+	rp["prehistory"] = pk
 	if v.Panicked() {
 		gen.Fail(t, gen.Violation{Key: "panic@" + gen.PanicSite(v.Stack), Oracle: "verification returns a verdict", Detail: desc + ": " + v.Panic, Replay: rp})
 		return
